@@ -505,6 +505,106 @@ def shard_run(arg):
     return sh.dict()
 
 
+# --------------------------------------------------------------------------
+# typed metadata of a realistic shape: written through a LayerRef, handed to the next request's callback
+
+RICH_STR = ["", "plain", 'q"uote', "back\\slash", "nl\nline", "tab\there", "café", "日本", "\U0001F600", "x" * 300, " lead", "trail ", "#hash", "a=b", "[x]", "'single'"]
+RICH_DT = ["1979-05-27T07:32:00Z", "1979-05-27T00:32:00-07:00", "1979-05-27T07:32:00", "1979-05-27", "07:32:00", "1979-05-27T07:32:00.999999Z"]
+
+
+def gen_rich(r):
+    def inner():
+        d = {"key": r.choice(RICH_STR), "depth": [[r.choice([0, -1, 2 ** 63 - 1, -2 ** 63, 7]) for _ in range(r.randint(0, 3))] for _ in range(r.randint(0, 3))]}
+        if r.random() < 0.5:
+            d["note"] = r.choice(RICH_STR)
+        return d
+    v = {"schema_version": r.choice([0, 1, 2 ** 32 - 1]), "name": r.choice(RICH_STR), "tags": [r.choice(RICH_STR) for _ in range(r.choice([0, 0, 1, 3]))],
+         "nums": [r.choice([0, 1, -1, 2 ** 63 - 1, -2 ** 63]) for _ in range(r.choice([0, 1, 4]))],
+         "big": r.choice([0, 1, 2 ** 31, 2 ** 63 - 1, 2 ** 63, 2 ** 64 - 1]), "ratio": r.choice([0.0, 1.5, -2.25, 1e300, 5e-324, 0.1, "nan", "inf", "-inf"]), "flag": r.random() < 0.5,
+         "kind": r.choice(["plain", "versioned", "named"]), "kind_major": r.choice([0, 7, 2 ** 32 - 1]), "kind_name": r.choice(RICH_STR), "inner": inner(),
+         "map": [[k, r.choice(RICH_STR)] for k in r.sample(["a", "b.c", "with space", "", "é", "Z"], r.randint(0, 4))], "pairs": [inner() for _ in range(r.choice([0, 1, 3]))]}
+    if r.random() < 0.6:
+        v["opt_str"] = r.choice(RICH_STR)
+    if r.random() < 0.6:
+        v["when"] = r.choice(RICH_DT)
+    return v
+
+
+def rich_expected(v):
+    """the TOML table serde's derive gives for this value (kebab-case names, None omitted, externally tagged enum)"""
+    def inner(d):
+        o = {"key": d["key"], "depth": d["depth"]}
+        if "note" in d:
+            o["note"] = d["note"]
+        return o
+    ratio = {"nan": float("nan"), "inf": float("inf"), "-inf": float("-inf")}.get(v["ratio"], v["ratio"])
+    e = {"schema-version": v["schema_version"], "name": v["name"], "tags": v["tags"], "nums": v["nums"], "big": v["big"], "ratio": ratio, "flag": v["flag"],
+         "kind": "plain" if v["kind"] == "plain" else {"versioned": {"major": v["kind_major"]}} if v["kind"] == "versioned" else {"named": v["kind_name"]},
+         "inner": inner(v["inner"]), "map": dict(v["map"]), "pairs": [inner(p) for p in v["pairs"]]}
+    if "opt_str" in v:
+        e["opt-str"] = v["opt_str"]
+    if "when" in v:
+        e["when"] = tomlw.Dt(v["when"])
+    return e
+
+
+def rich_shard(arg):
+    idxs, seed, work = arg
+    import tomllib
+    sh = vp.Shard()
+    um = vp.UMASKS[(idxs[0] if idxs else 0) % len(vp.UMASKS)]
+    mon = vp.Mon("layers", umask=um)
+    root = os.path.join(work, "rich%d" % os.getpid())
+    layers = os.path.join(root, "layers")
+    for d in (layers, os.path.join(root, "app"), os.path.join(root, "bp")):
+        os.makedirs(d)
+    try:
+        mon.call({"op": "init", "layers_dir": layers, "app_dir": os.path.join(root, "app"), "bp_dir": os.path.join(root, "bp")})
+        for idx in idxs:
+            r = vp.rng(seed, "c01-rich", idx)
+            v = gen_rich(r)
+            name = "rich%d" % (idx % 3)
+            case = {"rich": v, "name": name}
+            try:
+                rep = mon.call({"op": "rich", "name": name, "launch": idx % 2 == 0, "value": v})
+            except vp.ExecutorDied as e:
+                sh.violation("rich:process-died", "the process died (status %s) while writing / re-reading the typed metadata %r" % (e.status, v), case)
+                mon = vp.Mon("layers", umask=um)
+                mon.call({"op": "init", "layers_dir": layers, "app_dir": os.path.join(root, "app"), "bp_dir": os.path.join(root, "bp")})
+                continue
+            sh.evaluations += 1
+            what = "typed metadata %r" % (v,)
+            if rep.get("write_err"):
+                # TOML integers are 64-bit signed: a u64 beyond that cannot be written, and saying so is the only acceptable outcome
+                if v["big"] > 2 ** 63 - 1:
+                    sh.nontrivial.add(("rich", "unrepresentable-integer-refused"))
+                else:
+                    sh.violation("rich:write-error", "%s: write_metadata failed: %s" % (what, rep.get("detail", "")[:300]), case)
+                continue
+            if "err" in rep:
+                sh.violation("rich:request-error", "%s: the request after the write failed: %s; file: %r" % (what, rep.get("detail", "")[:300], rep.get("toml_text", "")[:300]), case)
+                continue
+            try:
+                doc = tomllib.loads(rep["toml_text"])
+            except Exception as e:  # noqa: BLE001
+                sh.violation("rich:invalid-toml", "%s: the written <layer>.toml is not valid TOML: %s\n%s" % (what, e, rep["toml_text"][:400]), case)
+                continue
+            want = rich_expected(v)
+            if not tomlw.same(doc.get("metadata"), tomlw.to_py(want)):
+                sh.violation("rich:content", "%s: <layer>.toml holds metadata %r, expected %r" % (what, doc.get("metadata"), want), case)
+                continue
+            if rep["state"] != {"restored": "kept"} or not rep["callback_ran"] or not rep["restored_equal"]:
+                sh.violation("rich:restored-value", "%s: the next request reported %r (callback ran: %s) and its callback saw %s" % (what, rep["state"], rep["callback_ran"], rep["restored_debug"][:400]), case)
+                continue
+            sh.nontrivial.add(("rich", v["kind"], "opt_str" in v, "when" in v, bool(v["pairs"]), bool(v["map"]), str(v["ratio"]) in ("nan", "inf", "-inf"), v["big"] > 2 ** 31))
+        sh.sample({"typed_metadata": "Rich { schema-version, name, opt-str?, tags, nums, big: u64, ratio: f64, flag, when?: Datetime, kind: enum, inner: struct, map, pairs: [struct] }",
+                   "observed": "file re-read by tomllib equals the serde shape of the value; the next request's callback received an equal value"}, cap=1)
+    finally:
+        mon.close()
+        vp.rmtree(root)
+    return sh.dict()
+
+
 def run(tier, seed, work):
     res = vp.Result("C01", tier, seed, "exploration")
     maxlen = 3 if tier == "quick" else 5
@@ -515,6 +615,10 @@ def run(tier, seed, work):
     shards = [("enum", s, seed, work) for s in vp.split(hs, vp.NCPU * 2)] + [("rand", s, seed, work) for s in vp.split(rnd, vp.NCPU)]
     for d in vp.pmap(shard_run, shards):
         res.merge(d)
+    nrich = 800 if tier == "quick" else 20000
+    for d in vp.pmap(rich_shard, [(s, seed, work) for s in vp.split(list(range(nrich)), vp.NCPU)]):
+        res.merge(d)
+    res.extra["rich_typed_metadata_values"] = nrich
     res.exhaustive = True
     res.extra["exhaustive_bound"] = ("all histories of length <=%d over the %d-symbol alphabet %r (writes only through a LayerRef obtained in the same build), layers 'a' and 'a.b'; "
                                      "flags, causes and payloads drawn per instance from VERIF_SEED" % (maxlen, len(SYMS), SYMS))
